@@ -1,6 +1,7 @@
 import PieModel.Props.C04
 import PieModel.Props.C04Once
 import PieModel.Props.C04Just
+import PieModel.Props.C03W
 #print axioms PieModel.C04_queueAdd_mem
 #print axioms PieModel.C04_queueAdd_nodup
 #print axioms PieModel.C04_queuePop_spec
@@ -28,3 +29,5 @@ import PieModel.Props.C04Just
 #print axioms PieModel.C04_consistent_not_executed
 #print axioms PieModel.C04_consistent_not_executed_scheduled
 #print axioms PieModel.C04_noOutputAt_iff
+#print axioms PieModel.C04_bu_once_writes
+#print axioms PieModel.C04_bu_executed_consistent_writes
